@@ -126,6 +126,36 @@ def name_dispatch(F):
         r.ob(ok2)
         if not ok2:
             r.violate("%s | dispatch" % f2["path"], F.loc(f2), "%s does not test the function's kind" % nm)
+        # scope: naming one function writes that function only — every element of `self.functions` that is written is the
+        # one addressed by the id parameter (a setter that also clears the name on "the previous holder" renames entities the
+        # caller never mentioned)
+        pid = None
+        for pm in f2.get("params", []):
+            if "FunctionID" in (pm.get("ty") or "") and pm["pat"].get("k") == "Binding":
+                pid = pm["pat"]["hid"]
+        writes = []
+        for x in walk(f2["body"]):
+            tgt = None
+            if x.get("k") in ("Assign", "AssignOp"):
+                tgt = x["lhs"]
+            elif x.get("k") == "MethodCall" and x["method"] in ("unwrap_local_mut", "get_mut", "set_kind", "take", "replace", "insert"):
+                tgt = x["recv"] if x["method"] != "get_mut" else x
+            if tgt is None:
+                continue
+            for ix in walk(tgt):
+                if ix.get("k") == "Index" and (place_path(ix["base"]) or "") == "self.functions":
+                    writes.append((x, ix))
+                if ix.get("k") == "MethodCall" and ix["method"] == "get_mut" and (place_path(ix["recv"]) or "") == "self.functions" and ix.get("args"):
+                    writes.append((x, {"index": ix["args"][0]}))
+        if pid is None:
+            r.undecided("%s: no FunctionID parameter" % nm)
+        else:
+            for x, ix in writes:
+                own = any(y.get("k") == "Path" and y.get("res", {}).get("hid") == pid for y in walk(ix["index"]))
+                r.ob(own, {"fn": nm, "writes the function addressed by its id parameter": own})
+                if not own:
+                    r.violate("%s | writes another function" % f2["path"], F.loc(f2, x),
+                              "%s writes an element of `functions` other than the one its id parameter addresses (`%s`): naming one function changes another" % (nm, snippet(_repo(), f2["file"], x["sp"])[:70]))
     return r
 
 
@@ -416,13 +446,33 @@ def type_dedup(F):
     r = RuleResult("R-TYPE-DEDUP",
                    "ModuleTypes.{types,groups,types_map} are written only by new/add_type; add_type registers a new entry only when the type is not already present, under the id passed by the caller, which every add_*_type* computes as self.types.len(); the short forms use the documented constants (no supertype, final, unshared)")
     MT = "ModuleTypes"
-    at = F.one_fn(name="add_type", self_adt=MT)
+
+    def walk_own(node):
+        """the function's own nodes: not the bodies of helpers inlined at its calls (those are judged as functions)"""
+        if isinstance(node, list):
+            for v in node:
+                yield from walk_own(v)
+        elif isinstance(node, dict):
+            yield node
+            for k_, v in node.items():
+                if k_ != "inlined" and isinstance(v, (dict, list)):
+                    yield from walk_own(v)
+    try:
+        at = F.one_fn(name="add_type", self_adt=MT)
+    except CheckError:
+        # by role: the one function of ModuleTypes, other than the constructor, that inserts into the type table
+        cands = [g for g in getattr(F, "all_fns", F.fns) if (g.get("self_adt") or "").endswith("::" + MT) and g.get("body") is not None and g["name"] != "new"
+                 and any(x.get("k") == "MethodCall" and x["method"] == "insert" and (place_path(x["recv"]) or "") == "self.types" for x in walk_own(g["body"]))]
+        if len(cands) != 1:
+            raise
+        at = cands[0]
+    AT = at["name"]
     r.analysed.append(at["path"])
     n_w = 0
-    for fn in F.fns:
+    for fn in getattr(F, "all_fns", F.fns):
         if fn.get("body") is None or (fn.get("impl_trait") or "").startswith(("std::", "core::")):
             continue
-        for n in walk(fn["body"]):
+        for n in walk_own(fn["body"]):
             pp = None
             if n.get("k") == "MethodCall" and n["method"] in ("insert", "push", "remove", "entry", "clear", "retain", "extend", "drain", "get_mut", "iter_mut", "values_mut"):
                 pp = place_path(n["recv"]) or ""
@@ -432,7 +482,7 @@ def type_dedup(F):
                 if not (fn.get("self_adt") or "").endswith(MT) and not pp.split(".")[-2:-1] == ["types"]:
                     continue
                 n_w += 1
-                ok = (fn.get("self_adt") or "").endswith(MT) and fn["name"] in ("new", "add_type")
+                ok = (fn.get("self_adt") or "").endswith(MT) and fn["name"] in ("new", AT)
                 r.ob(ok, {"fn": fn["path"], "writes": pp})
                 if not ok:
                     r.violate("%s | writes %s" % (fn["path"], pp), F.loc(fn, n), "%s mutates %s outside ModuleTypes::new/add_type: indices or contents of existing types can change" % (fn["path"], pp))
@@ -527,7 +577,7 @@ def type_dedup(F):
         if fn.get("body") is None:
             continue
         for c in walk(fn["body"]):
-            if c.get("k") == "MethodCall" and c["method"] == "add_type" and (place_path(c["recv"]) or "") == "self":
+            if c.get("k") == "MethodCall" and c["method"] == AT and (place_path(c["recv"]) or "") == "self":
                 n_c += 1
                 r.analysed.append(fn["path"])
                 if id_param is not None:
@@ -552,7 +602,7 @@ def type_dedup(F):
     # returns some existing index by looking at part of a type (signature only) bypasses the exact-equality dedup
     from rules.fields import _tail_values
     for fn in F.find_fns(self_adt=MT):
-        if fn.get("body") is None or not (fn["name"].startswith("add_") and fn["name"] != "add_type" and "TypeID" in (fn.get("ret") or "")):
+        if fn.get("body") is None or fn is at or not (fn["name"].startswith("add_") and fn["name"] != "add_type" and "TypeID" in (fn.get("ret") or "")):
             continue
         def own_rets(node, out):
             # `return`s of this function: not those inside a closure or inside the body of a helper inlined at a call
@@ -572,11 +622,11 @@ def type_dedup(F):
         for rv in rets:
             rv = peel(rv) if isinstance(rv, dict) else {}
             okr = None
-            if rv.get("k") == "MethodCall" and rv["method"] in ("add_type",) or (rv.get("k") == "MethodCall" and rv["method"].startswith("add_") and (place_path(rv["recv"]) or "") == "self"):
+            if rv.get("k") == "MethodCall" and rv["method"] in ("add_type", AT) or (rv.get("k") == "MethodCall" and rv["method"].startswith("add_") and (place_path(rv["recv"]) or "") == "self"):
                 okr = True
             elif rv.get("k") == "Path" and rv.get("res", {}).get("r") == "local":
                 _, init, _k = binding_site(fn["body"], rv["res"]["hid"])
-                if init is not None and any(y.get("k") == "MethodCall" and y["method"].startswith("add_") and (place_path(y["recv"]) or "") == "self" for y in walk(init)):
+                if init is not None and any(y.get("k") == "MethodCall" and (y["method"].startswith("add_") or y["method"] == AT) and (place_path(y["recv"]) or "") == "self" for y in walk(init)):
                     okr = True
                 elif init is not None:
                     okr = False
@@ -957,6 +1007,36 @@ def resolver_details(F):
             if cmp_with_popped(c_):
                 neg = c_.get("k") == "Unary" and c_.get("op") == "!"
                 return True if neg else False
+            # `let delete_this_end = match delete_block { Some(d) if d == id => .., Some(_) => true, None => false }; if delete_this_end {..}`
+            neg = False
+            if c_.get("k") == "Unary" and c_.get("op") == "!":
+                neg, c_ = True, peel(c_["a"])
+            if c_.get("k") == "Path" and c_.get("res", {}).get("r") == "local":
+                _p, init_, _k = binding_site(end_arm["body"], c_["res"]["hid"])
+                init_ = peel(init_) if isinstance(init_, dict) else {}
+                if init_.get("k") == "Lit" and str(init_.get("lit")).startswith("Bool"):
+                    # `let mut flag = true; if d == id { flag = ..; } if flag {..}`: in this case (d != id) every assignment
+                    # that sits in the then-branch of the comparison is not executed, so the flag still has its initial value
+                    hid_ = c_["res"]["hid"]
+                    live = False
+                    for a_ in walk(end_arm["body"]):
+                        if a_.get("k") in ("Assign", "AssignOp") and peel(a_["lhs"]).get("k") == "Path" and peel(a_["lhs"]).get("res", {}).get("hid") == hid_:
+                            skipped = any(ca.get("k") == "If" and cmp_with_popped(ca["cond"]) and not (peel(ca["cond"]).get("k") == "Unary" and peel(ca["cond"]).get("op") == "!")
+                                          and any(y is a_ for y in walk(ca["then"])) for ca in (conditional_ancestors(end_arm["body"], a_) or []))
+                            if not skipped:
+                                live = True
+                    if not live:
+                        v_ = "Bool(true)" in str(init_.get("lit"))
+                        return (not v_) if neg else v_
+                if init_.get("k") == "Match":
+                    picked = sel_end(init_)
+                    if picked:
+                        from rules.fields import _tail_values
+                        tails = [peel(t) for i_ in picked for t in _tail_values(init_["arms"][i_]["body"])]
+                        if tails and all(t.get("k") == "Lit" and "Bool(true)" in str(t.get("lit")) for t in tails):
+                            return not neg
+                        if tails and all(t.get("k") == "Lit" and "Bool(false)" in str(t.get("lit")) for t in tails):
+                            return neg
             return None
 
         def sel_end(m_):
